@@ -92,13 +92,14 @@ func TestCheck(t *testing.T) {
 		"submission_requirements all/pick with every subset of count/min/max, from_nested depth<=3); wallets hold matching, near-matching (one constraint off) and decoy " +
 		"credentials as JSON-LD and JWT; each case runs the real Match/Build/ParseEnvelope/Validate/ResolveConstraintsFields/PEXConsumer over 5 envelope shapes and ~14 mutated " +
 		"submissions and is judged by an independent reference matcher. Non-trivial: >=1 input descriptor and >=1 wallet credential; distinct by (definition structure fingerprint, wallet class, outcome).")
-	r.Require(r.Pick(200, 3000), r.Pick(100, 1000))
+	r.Require(r.Pick(600, 6000), r.Pick(300, 3000))
 	r.Assume("credential JSON view per securing format as used by the repo's own fixtures (vcr/pe/test as_jsonld / as_jwt): JSON-LD credentials in compact form (single type / credentialSubject unwrapped), JWT credentials in expanded form (type and credentialSubject are arrays, registered claims mapped back); claims live in credentialSubject or the standard top-level properties")
 	r.Assume("JSONPath forms limited to $ .name [\"name\"] [n]; single-quoted bracket notation is not generated (the third-party jsonpath library only parses single-character single-quoted names)")
 	r.Assume("patterns limited to the subset on which RE2 (reference) and ECMAScript (regexp2) agree; 0 or 1 capture group")
 	r.Assume("input descriptor ids are unique within a definition; signatures are not part of this property (pe does not verify them)")
 
-	pairs := r.Pick(320, 6000)
+	silenceAuditLog(t)
+	pairs := r.Pick(900, 10000)
 	cases, genStats := generate(r, pairs)
 	for k, v := range genStats {
 		r.Count(k, v)
